@@ -6,6 +6,8 @@ Suites
                   generated dispatch table (token paths exhaustively, random paths)
   LINT-position   position() / value_position() of Entity, DTDEntity, FluentMessage,
                   AndroidEntity, Junk, XMLJunk with EntityPos / int / tuple offsets
+  LINT-entity-small  EntityLinter on every entity list up to length 3 (4) over two keys x two
+                  values + junk against every reference up to length 2 and the dict {}
   LINT-entity     EntityLinter on hand-made entity lists (all classes, junk, keys colliding
                   with junk keys, missing value spans) with arbitrary mock checkers and
                   references ({} or KeyedTuple): "for all entity lists and all checkers"
@@ -41,7 +43,8 @@ RULE = ("record lists (3-9 records over a small key pool so that keys repeat) pr
         "with injected junk lines, duplicates and check-violating values; reference versions by "
         "re-valuing / dropping / adding / repeating records, absent, missing or a directory; "
         "projects of 2-6 such files plus files without a parser under three reference lookups; "
-        "hand-made entity lists with mock checkers; distinct by (suite, file texts, reference "
+        "hand-made entity lists with mock checkers, and every entity list up to length 3/4 over "
+        "two keys x two values + junk against every reference up to length 2; distinct by (suite, file texts, reference "
         "texts, extra tests); non-trivial = at least one finding expected")
 
 LEVEL = {"error": 0, "warning": 1}
@@ -716,6 +719,93 @@ class MockChecker:
         yield from self.table.get(id(l10n), [])
 
 
+def entity_case(chk, cur, ref_ents, reference, checker, table, text, rtext):
+    """run EntityLinter on one hand-made case; oracle; -> (model request, impl result, wire)"""
+    from compare_locales.parser import base, android
+    from compare_locales.lint.linter import EntityLinter
+
+    def go():
+        el = EntityLinter(cur, checker, reference)
+        return impl_dicts([r for e in cur for r in el.lint_entity(e)])
+    got = run_impl(go)
+    w = Wire()
+    wcur = [w.entity(e) for e in cur]
+    wref = None if ref_ents is None else [w.entity(e) for e in ref_ents]
+    eqs = w.eqs(cur, ref_ents or [])
+    results = None
+    if table is not None:
+        results = [[w.ents[id(e)], [w.cres(r) for r in table[id(e)]]] for e in cur if id(e) in table]
+    case = [canon(text), canon(rtext), wcur, opt(wref), eqs, opt(results)]
+    chk.count(("ent", case))
+    # oracle: junk gives exactly one result; a key occurring twice gives a duplicate error
+    # per non-junk occurrence, at the start of that occurrence; changed iff the last reference
+    # entity with the key differs, at the same place; plus one result per checker result
+    if got[0] == 0:
+        keys = [e.key for e in cur]
+        nj = [e for e in cur if not isinstance(e, base.Junk)]
+
+        def where(e):
+            if isinstance(e, android.AndroidEntity):
+                return [0, 0]
+            return list(linecol(text, e.span[0]))
+        dup = [r for r in got[1] if r[3].startswith("Duplicate string with ID: ")]
+        exp_dup = [where(e) + [e.key] for e in nj if keys.count(e.key) > 1]
+        chg = [r for r in got[1] if r[3].startswith("Changes to string require a new ID: ")]
+        exp_chg = []
+        for e in nj:
+            last = [r for r in (ref_ents or []) if r.key == e.key]
+            if last and not (last[-1].key == e.key and last[-1].val == e.val):
+                exp_chg.append(where(e) + [e.key])
+        junk = [r for r in got[1] if r[3].startswith("Unparsed content")]
+        nres = sum(len(table.get(id(e), [])) for e in nj) if table else 0
+        nd, nc = len("Duplicate string with ID: "), len("Changes to string require a new ID: ")
+        if ([r[:2] + [r[3][nd:]] for r in dup] != exp_dup
+                or [r[:2] + [r[3][nc:]] for r in chg] != exp_chg
+                or any(r[2] != "error" for r in dup + junk) or any(r[2] != "warning" for r in chg)
+                or len(junk) != len(cur) - len(nj)
+                or len(got[1]) != len(dup) + len(chg) + len(junk) + nres):
+            chk.fail("entitylinter-clauses", {"text": text, "ref_text": rtext,
+                                              "entities": [repr(e) for e in cur]},
+                     {"got": got, "expected_duplicates": exp_dup, "expected_changed": exp_chg})
+    return case, got, w
+
+
+def suite_entity_small(chk, model):
+    """every entity list up to length 3 over two keys x two values + junk, against every
+    reference up to length 2 (and the dict {}), without a checker"""
+    import itertools
+    from compare_locales.parser import base
+    from compare_locales.keyedtuple import KeyedTuple
+    text = "aa bb\nx y\nzz\n"
+    spans = {"aa": (0, 2), "bb": (3, 5), "x": (6, 7), "y": (8, 9)}
+    kinds = [("aa", "x"), ("aa", "y"), ("bb", "x"), ("bb", "y")]
+    n = chk.n(3, 4)
+    cases, impl, wires = [], [], []
+    refs = [None] + [r for m in range(3) for r in itertools.product(kinds, repeat=m)]
+    for m in range(n + 1):
+        for combo in itertools.product(kinds + ["junk"], repeat=m):
+            for ref in refs:
+                ctx, rctx = base.Parser.Context(text), base.Parser.Context(text)
+                cur = []
+                for i, k in enumerate(combo):
+                    if k == "junk":
+                        cur.append(base.Junk(ctx, (10, 12)))
+                    else:
+                        cur.append(base.Entity(ctx, None, None, (spans[k[0]][0], 9), spans[k[0]], spans[k[1]]))
+                ref_ents = None if ref is None else [
+                    base.Entity(rctx, None, None, (spans[k[0]][0], 9), spans[k[0]], spans[k[1]]) for k in ref]
+                reference = {} if ref is None else KeyedTuple(ref_ents)
+                case, got, w = entity_case(chk, cur, ref_ents, reference, None, None, text, text)
+                cases.append(case)
+                impl.append(got)
+                wires.append(w)
+    chk.sample({"suite": "LINT-entity-small", "case": cases[700], "impl": impl[700]})
+    if model:
+        outs = model.call([(0, c) for c in cases])
+        outs = [w.decode(o, False) for w, o in zip(wires, outs)]
+        chk.correspond("LINT-entity-small", cases, impl, outs)
+
+
 def suite_entity(chk, model):
     """EntityLinter on arbitrary entity lists with arbitrary checkers"""
     from compare_locales.parser import base
@@ -764,45 +854,11 @@ def suite_entity(chk, model):
                                     for _j in range(rng.randint(1, 3))]
             checker = MockChecker(table)
 
-        def go():
-            el = EntityLinter(cur, checker, reference)
-            return impl_dicts([r for e in cur for r in el.lint_entity(e)])
-        got = run_impl(go)
-        w = Wire()
-        wcur = [w.entity(e) for e in cur]
-        wref = None if ref_ents is None else [w.entity(e) for e in ref_ents]
-        eqs = w.eqs(cur, ref_ents or [])
-        results = None
-        if table is not None:
-            results = [[w.ents[id(e)], [w.cres(r) for r in table[id(e)]]] for e in cur if id(e) in table]
-        cases.append([canon(text), canon(rtext), wcur, opt(wref), eqs, opt(results)])
+        case, got, w = entity_case(chk, cur, ref_ents, reference, checker, table, text, rtext)
+        cases.append(case)
         impl.append(got)
         wires.append(w)
-        chk.count(("ent", cases[-1]))
         chk.hist("entity_list_len", len(cur))
-        # oracle (the clauses that need no positions): junk gives exactly one result, a key
-        # occurring twice gives a duplicate error per non-junk occurrence, changed iff the last
-        # reference entity with the key differs
-        if got[0] == 0:
-            keys = [e.key for e in cur]
-            nj = [e for e in cur if not isinstance(e, base.Junk)]
-            dup = [r for r in got[1] if r[3].startswith("Duplicate string with ID: ")]
-            exp_dup = [e.key for e in nj if keys.count(e.key) > 1]
-            chg = [r for r in got[1] if r[3].startswith("Changes to string require a new ID: ")]
-            exp_chg = []
-            for e in nj:
-                last = [r for r in (ref_ents or []) if r.key == e.key]
-                if last and not (last[-1].key == e.key and last[-1].val == e.val):
-                    exp_chg.append(e.key)
-            junk = [r for r in got[1] if r[3].startswith("Unparsed content")]
-            nres = sum(len(table.get(id(e), [])) for e in nj) if table else 0
-            nd, nc = len("Duplicate string with ID: "), len("Changes to string require a new ID: ")
-            if ([r[3][nd:] for r in dup] != exp_dup or [r[3][nc:] for r in chg] != exp_chg
-                    or len(junk) != len(cur) - len(nj)
-                    or len(got[1]) != len(dup) + len(chg) + len(junk) + nres):
-                chk.fail("entitylinter-clauses", {"text": text, "ref_text": rtext,
-                                                  "entities": [repr(e) for e in cur]},
-                         {"got": got, "expected_duplicates": exp_dup, "expected_changed": exp_chg})
     chk.sample({"suite": "LINT-entity", "case": cases[3], "impl": impl[3]})
     if model:
         outs = model.call([(0, c) for c in cases])
@@ -815,6 +871,8 @@ def write_file(path, text, rng):
     data = text.encode("utf-8")
     if rng.random() < 0.5:
         data = data.replace(MOCHI.encode("utf-8"), b"\xff")   # undecodable byte -> U+FFFD
+    if rng.random() < 0.1:
+        data = data.replace(b"\n", b"\r\n")                   # read with universal newlines
     with open(path, "wb") as f:
         f.write(data)
 
@@ -901,6 +959,11 @@ def suite_file(chk, model, tmp):
         chk.hist("format", c["fmt"])
         chk.hist("reference", c["mode"])
         chk.hist("findings", min(len(c["expected"]), 8))
+        for e in c["expected"]:
+            m = e[3][0] if isinstance(e[3], tuple) else e[3]
+            chk.hist("expected_kind", "duplicate" if m.startswith("Duplicate") else
+                     "changed" if m.startswith("Changes") else
+                     "junk" if m.startswith("Unparsed") else "check: " + m.replace(MOCHI, "U+FFFD")[:40])
         if i in (3, 11) or (c["fmt"] == "ftl" and len(c["expected"]) > 3 and len(chk.samples) < 5):
             chk.sample({"suite": "LINT-file", "format": c["fmt"], "text": c["text"],
                         "reference": c["ref_text"], "impl": got})
@@ -1044,7 +1107,8 @@ def run(chk, runner_ok):
         rxsuite.run_rx(chk, groups=["c19"])
     tmp = tempfile.mkdtemp(prefix="verif_c19_")
     try:
-        for suite, args in ((suite_hasparser, ()), (suite_position, ()), (suite_entity, ()),
+        for suite, args in ((suite_hasparser, ()), (suite_position, ()), (suite_entity_small, ()),
+                            (suite_entity, ()),
                             (suite_file, (tmp,)), (suite_lint, (tmp,))):
             try:
                 suite(chk, model, *args)
@@ -1089,8 +1153,13 @@ def replay(chk, path):
                     rc |= int(not matches_expected(rows, exp))
             finally:
                 shutil.rmtree(tmp, ignore_errors=True)
+        elif f["signature"] == "hasparser-suffix":
+            from compare_locales import parser
+            has = parser.hasParser(c["path"])
+            print("  impl now:", has, "expected:", f["detail"]["expected"])
+            rc |= int(has != f["detail"]["expected"])
         else:
-            rc = 1
+            rc = 1      # hand-made entity lists / projects are not stored: re-run the check
     for d in data.get("disagreements", []):
         print("disagreement", json.dumps(d, default=str)[:2000])
         rc = 1
